@@ -90,7 +90,7 @@ TEXT = {
         'design_ref': 'DESIGN.md §4 C04',
     },
     'C03': {
-        'text': 'Partial: the honest-case algebra and arithmetic safety. The two-round sketch accepts honest one-hot and all-zero vectors for ANY correlated randomness (Verus lemma over the finish_sketch/next_message contracts that Kani proves on the real code); Poplar1AggregationParam length arithmetic is exact for every u16 level. A u16 overflow in the level-dependent fast-forward of verify_init (levels > 21845) was found and repaired.',
+        'text': 'Partial: the honest-case algebra and arithmetic safety. The two-round sketch accepts honest one-hot and all-zero vectors for ANY correlated randomness (Verus lemma over the finish_sketch/next_message contracts that Kani proves on the real code); Poplar1AggregationParam length arithmetic is exact for every u16 level. Verus proves on the extracted text (abstract field, all levels) that the client consumes the correlated-randomness streams three elements per level and that verify_init fast-forwards exactly 3*level elements for every u16 level, so both sides read the same (a,b,c); the share formulas of compute_next_corr_shares, finish_sketch and next_message hold for any field. A u16 overflow in that fast-forward (levels > 21845) was found and repaired.',
         'note': 'End-to-end correctness over all levels/prefix sets and the heavy-hitters driver depend on IDPF evaluation over bitvec inputs: not decided (DESIGN.md R3). See C06 for the per-level IDPF step.',
         'technique': 'algebraic lemmas over function contracts (Verus) + contract harnesses on real code (Kani)',
         'design_ref': 'DESIGN.md §4 C03',
